@@ -89,6 +89,19 @@ class SStr:
     def concretize(self):
         return "".join(chr(c) for c in V.conc_items(self.items))
 
+    def __getattr__(self, name):
+        # a str method without a model (isascii, casefold, translate, ...): pin the text to palette
+        # values and run the real method - the unit becomes partial (see sx/hunt.py)
+        if name.startswith("__") or not hasattr("", name):
+            raise AttributeError(name)
+        from . import hunt
+
+        def call(*a, **kw):
+            what = "str." + name
+            return getattr(hunt.conc(self, what), name)(*[hunt.conc(x, what) for x in a], **{k: hunt.conc(x, what) for k, x in kw.items()})
+
+        return call
+
     def __add__(self, o):
         if not is_text(o):
             return NotImplemented
@@ -241,6 +254,15 @@ class SStr:
 
     def lower(self):
         return _case_map(self.items, False)
+
+    def isascii(self):
+        for c in self.items:
+            if _real_isinstance(c, _real_int):
+                if c >= 128:
+                    return False
+            elif not E().decide(c < 128):
+                return False
+        return True
 
     def isdigit(self):
         if not self.items:
